@@ -53,7 +53,7 @@ def symbolic_derivative(arr, var, env):
 @st.composite
 def circuit_cases(draw, tier):
     measured = draw(st.booleans())
-    gates = ["rot", "rot", "rot", "named", "scalar"]
+    gates = ["rot", "rot", "rot", "named", "scalar", "sqrt"]
     spec = draw(c14.symbolic_circuits(
         tier, allow_mixed=False, exprs=EXPRS, max_boxes=4,
         gates=gates + ["rot2", "rot2", "cx"]))
@@ -63,6 +63,9 @@ def circuit_cases(draw, tier):
         if b.get("g") == "scalar":
             b = dict(b, a=[draw(st.sampled_from(
                 ["u", "u**2", "2*u + 1", "u*v"])), 0])
+        elif b.get("g") == "sqrt":   # positive radicands at every POINT
+            b = dict(b, a=[draw(st.sampled_from(
+                ["u + 2", "u**2 + 1", "u*v + 3", "4"]))])
         layers.append([b, off])
     spec = dict(spec, layers=layers)
     if measured:
